@@ -18,7 +18,8 @@ const (
 	tMapV      = 25 // VM, VF, VA: values of map, func and array kind
 	tFuncV     = 26
 	tArrV      = 27
-	nTypes     = 28
+	tEmbV      = 28 // VE: a plain struct embedding two structs
+	nTypes     = 29
 )
 
 var typeTab [nTypes]reflect.Type
@@ -39,6 +40,7 @@ func init() {
 	typeTab[tSliceV] = reflect.TypeOf(VS{})
 	typeTab[tTwinA], typeTab[tTwinB] = TwinA(), TwinB()
 	typeTab[tMapV], typeTab[tFuncV], typeTab[tArrV] = reflect.TypeOf(VM{}), reflect.TypeOf(VF(nil)), reflect.TypeOf(VA{})
+	typeTab[tEmbV] = reflect.TypeOf(VE{})
 	for i := range typeTab {
 		typeName[i] = typeTab[i].String()
 	}
@@ -60,6 +62,8 @@ func implements(t, iface int) bool { return typeTab[t].Implements(typeTab[iface]
 func mkVal(t int, tok *Tok) reflect.Value {
 	rt := typeTab[t]
 	switch {
+	case t == tEmbV:
+		return reflect.ValueOf(VE{VEa: VEa{T: tok}})
 	case t == tMapV:
 		return reflect.ValueOf(VM{"t": tok})
 	case t == tFuncV:
